@@ -129,3 +129,9 @@ def handleHist (args : Toks) : String :=
     go n ts []
 
 end OW.Driver.Kernel
+
+namespace OW.Driver.Kernel
+/-- `KLIST id` → names of all kernel models in the registry -/
+def handleList (_ : OW.Proto.Toks) : String :=
+  OW.Proto.joinToks ("ok" :: (OW.Kernels.all (α := Float)).map (·.name))
+end OW.Driver.Kernel
